@@ -291,7 +291,7 @@ def parent_kind(ast, path):
 def run_case(ctx, env, spec):
     """All monitors on one (statements, pool) case.  ``spec`` is JSON-able and is the replay witness."""
     lib, g = env.lib, env.g
-    ctx.count('evaluations')
+    ctx.count('pools')
     try:
         case = Case(ctx, env, spec)
     except Exception as err:  # pylint: disable=broad-except
@@ -315,6 +315,7 @@ def run_case(ctx, env, spec):
     first = []
     for number, (ast, statement) in enumerate(zip(case.asts, case.statements)):
         witness = dict(spec, failing_statement=number)
+        ctx.count('evaluations')  # one evaluation = one (statement, pool) match decision
         if not lib.trivial(ast, spec['pool']):
             ctx.shape(lib.pool_signature(ast, spec['pool']))
         cover = {slot: lib.coverage(ast, feed['sigs']) for slot, feed in case.feeds.items()}
